@@ -90,7 +90,7 @@ def split_every_pair(programs):
     return H.round_robin(programs)
 
 
-def check_set(res, ctx, rng, programs, tids):
+def check_set(res, ctx, rng, programs, tids, n_random=None):
     baselines, base_names = {}, {}
     for p, tid in zip(programs, tids):
         per, names, exc = run_stream(H.on_thread(tid, p))
@@ -112,7 +112,7 @@ def check_set(res, ctx, rng, programs, tids):
         res.count('program_sets_exhaustively_scheduled')
     else:
         schedules = [H.round_robin(programs), H.round_robin(programs, reverse=True)] + \
-                    [H.random_interleaving(rng, programs) for _ in range(ctx.pick(60, 300))]
+                    [H.random_interleaving(rng, programs) for _ in range(ctx.pick(60, 300) if n_random is None else n_random)]
     n_sched = 0
     for order in schedules:
         n_sched += 1
@@ -173,6 +173,21 @@ def run(ctx):
             tids.append(tid)
         check_set(res, ctx, rng, programs, tids)
         res.count('many_thread_sets')
+    # scale ladder: more threads inside a START..END window at the same moment than any table cap a developer would pick
+    # for "threads that are busy right now" (merged per-CPU buffers of a busy machine hold thousands of blocked threads)
+    for n in (ctx.pick((1100, 2100), (1100, 4200, 9000, 20000, 70000)) if ctx.shard == 0 else ()):
+        programs, tids = [], []
+        for t in range(n):
+            tid = 0x10000 + t
+            keyspace = {'tid': tid, 'pid': 1000 + 10 * t, 'sid': 100000 + 100 * t}
+            call = H.syscall(rng.choice(('BSC_read', 'BSC_write', 'BSC_getpid', 'BSC_sys_close')), (3, 0x7000, 64, 0),
+                             (rng.choice((0, 0, 9)), 32, 0, 0),
+                             H.newthread_pair(0x900000 + t, keyspace['pid'], b'child%d' % t) if t % 7 == 0 else [])
+            programs.append(call + (H.exec_pair(keyspace['pid'], b'image%d' % t) if t % 11 == 0 else []))
+            tids.append(tid)
+        check_set(res, ctx, rng, programs, tids, n_random=2)
+        res.count('wide_thread_sets')
+        res.counters['widest_thread_set'] = max(res.counters.get('widest_thread_set', 0), n)
     # the canonical adversarial case, by construction: DATA(A) DATA(B) STRING(A) STRING(B) for both pair kinds
     for maker in (lambda t, pid, n: H.newthread_pair(t * 1000 + 1, pid, n), lambda t, pid, n: H.exec_pair(pid, n)):
         for q in (H.NONE, H.ALL):
@@ -191,6 +206,7 @@ def run(ctx):
     res.require('schedules_splitting_a_pair', 10)
     res.require('program_sets_exhaustively_scheduled', 1)
     res.require('many_thread_sets', 1)
+    res.require('wide_thread_sets', 1)
     return res
 
 
